@@ -16,9 +16,9 @@ func init() { props["C17"] = runC17 }
 
 // ---------- record rendering (the model's field-value syntax) ----------
 
-func fs(s string) string  { return "s:" + hx([]byte(s)) }
-func fn(v int64) string   { return fmt.Sprintf("n:%d", v) }
-func fu(v uint64) string  { return fmt.Sprintf("n:%d", v) }
+func fs(s string) string { return "s:" + hx([]byte(s)) }
+func fn(v int64) string  { return fmt.Sprintf("n:%d", v) }
+func fu(v uint64) string { return fmt.Sprintf("n:%d", v) }
 func fb(v bool) string {
 	if v {
 		return "b:1"
